@@ -23,8 +23,7 @@ EXTENDS C19_Eval, TraceLib
 PPFails(e, rpo, rp) ==
   IF ~Printable(e, TRUE) THEN FALSE
   ELSE IF rpo # "ok" THEN TRUE
-  ELSE LET a == Canon(e)  b == Canon(rp) IN
-       IF HasKind(a, "bigconst") \/ HasKind(b, "bigconst") \/ HasKind(b, "oth") THEN FALSE ELSE a # b
+  ELSE LET c == SameUpToNumerals(e, rp) IN c.judged /\ ~c.same
 
 \* rules whose claim is "the result has the value of the input" with nothing but the recorded conditions as context.
 \* (Not judged by value: rules that use lemmas, definitions, induction hypotheses or earlier substitutions of the
@@ -45,7 +44,7 @@ Verdict3(ev) ==
               V((IF sv.fails THEN {IF IsDerivStep(ev) THEN "DerivCorrect" ELSE "SameValue"} ELSE {})
                 \cup (IF pp THEN {"PrintParseIdentity"} ELSE {}),
                 sv.cmp,
-                "rec" \in DOMAIN ev /\ Canon(ev.rec) # Canon(ev.r))
+                "rec" \in DOMAIN ev /\ ~SameUpToNumerals(ev.rec, ev.r).same)
     [] ev.kind = "norm" ->
          IF ev.outcome # "ok" THEN V({}, FALSE, FALSE)
          ELSE LET sv == SameValue(ev.e, ev.n1, ev.conds) IN
